@@ -710,7 +710,7 @@ def run(tier: str, replay: str | None = None):
                 cases.append(("percent", c["template"], c["args"], True))
             else:
                 cases.append(("format", c["template"], c["args"], c["kwargs"]))
-        n_struct = 4000 if tier == "quick" else 40000
+        n_struct = 8000 if tier == "quick" else 60000
         for _ in range(n_struct):
             t, a = gen_structured(rng)
             cases.append(("percent", t, a, True))
@@ -718,8 +718,7 @@ def run(tier: str, replay: str | None = None):
         scan_args = [(), (1,), {"a": 1}, 1]
         for i, t in enumerate(exhaustive_templates(maxlen)):
             cases.append(("percent", t, scan_args[i % 4], False))
-            if tier == "thorough" or len(t) <= 3:
-                cases.append(("percent", t.encode("ascii"), scan_args[(i + 1) % 4], False))
+            cases.append(("percent", t.encode("ascii"), scan_args[(i + 1) % 4], False))
         n_rand = 6000 if tier == "quick" else 80000
         for _ in range(n_rand):
             t = random_template_chars(rng, rng.choice([4, 5, 6, 7, 8, 10]))
@@ -731,7 +730,7 @@ def run(tier: str, replay: str | None = None):
                     pass
             cases.append(("percent", t, a, True))
         # str.format
-        for _ in range(3000 if tier == "quick" else 30000):
+        for _ in range(6000 if tier == "quick" else 60000):
             t, args, kwargs = gen_format_structured(rng)
             cases.append(("format", t, args, kwargs))
         fargs = [([], {}), ([1], {}), ([1, "s"], {}), ([1], {"a": 2}), ([], {"a": [1, 2]})]
